@@ -443,7 +443,11 @@ impl PartialEq for Value {
             (Value::String(a), Value::String(b)) => a == b,
             (Value::Bool(a), Value::Bool(b)) => a == b,
             (Value::Null, Value::Null) => true,
-            (Value::Vector(a), Value::Vector(b)) => a == b,
+            // Bitwise, like Float64 above and like Hash and Ord below: with `f32 ==` a vector
+            // holding NaN is not equal to itself, so it could be stored twice and never deleted.
+            (Value::Vector(a), Value::Vector(b)) => {
+                a.len() == b.len() && a.iter().zip(b.iter()).all(|(x, y)| x.to_bits() == y.to_bits())
+            }
             (Value::VectorInt8(a), Value::VectorInt8(b)) => a == b,
             (Value::Timestamp(a), Value::Timestamp(b)) => a == b,
             _ => false,
